@@ -4,6 +4,7 @@ import (
 	"errors"
 	"net"
 	"sync"
+	"time"
 
 	"github.com/rs/zerolog"
 	tomb "gopkg.in/tomb.v1"
@@ -184,6 +185,10 @@ func (proxy *Proxy) freeBlocker(acceptTomb *tomb.Tomb) {
 	proxy.tomb.Done()
 }
 
+// acceptRetryDelay is how long the accept loop waits after a failed Accept that was
+// not caused by the proxy being stopped.
+const acceptRetryDelay = 50 * time.Millisecond
+
 // server runs the Proxy server, accepting new clients and creating Links to
 // connect them to upstreams.
 func (proxy *Proxy) server() {
@@ -209,13 +214,18 @@ func (proxy *Proxy) server() {
 			// See http://zhen.org/blog/graceful-shutdown-of-go-net-dot-listeners/
 			select {
 			case <-acceptTomb.Dying():
+				return
 			default:
 				proxy.Logger.
 					Warn().
 					Err(err).
 					Msg("Error while accepting client")
 			}
-			return
+			// Not a shutdown (out of file descriptors, a connection aborted before
+			// it was accepted): the proxy stays enabled, so keep accepting instead
+			// of leaving a listener that nobody serves.
+			time.Sleep(acceptRetryDelay)
+			continue
 		}
 
 		proxy.Logger.
